@@ -1341,6 +1341,19 @@ class VarSub(Vars):
                          var.shape, var.vtype, var.name, var.sparray)
         self.indices = indices
 
+    def assign(self, values):
+
+        if self.model.mtype != 'S':
+            raise ValueError('Unsupported variables.')
+        if not isinstance(values, (np.ndarray, Real)):
+            raise TypeError('The second argument must be numerical values.')
+
+        # the realisation of the selected entries only
+        shape = np.shape(self.indices)
+        values = np.array(values, dtype=float) + np.zeros(shape, dtype=float)
+
+        return RandVal(self, values.reshape(shape))
+
     def __repr__(self):
 
         var_name = '' if not self.name else 'slice of {}: '.format(self.name)
@@ -3042,7 +3055,7 @@ class RoAffine:
             if not isinstance(arg, RandVal):
                 raise TypeError('Unsupported type for defining random variable values.')
 
-            index = range(arg.rvar.first, arg.rvar.last)
+            index = arg.index
             rvec[index] = arg.values.ravel()
 
         raffine_value = self.raffine()
@@ -3919,6 +3932,29 @@ class RandVarSub(VarSub):
 
         super().__init__(rvars, indices)
         self.e = VarSub(rvars.e, indices)
+
+    def assign(self, values, sw=False):
+
+        if not isinstance(values, (np.ndarray, Real)):
+            raise TypeError('The second argument does not provide numerical values.')
+
+        # the realisation of the selected entries only
+        shape = np.shape(self.indices)
+        if not sw:
+            values = np.array(values, dtype=float) + np.zeros(shape, dtype=float)
+            values = values.reshape(shape)
+        else:
+            if isinstance(values, pd.Series):
+                values = values.values
+
+            value_list = []
+            for i in range(self.model.top.num_scen):
+                value = np.array(values[i], dtype=float)
+                value = value + np.zeros(shape, dtype=float)
+                value_list.append(value)
+            values = pd.Series(value_list, index=self.model.top.series_scen.index)
+
+        return RandVal(self, values, sw)
 
     @property
     def E(self):
@@ -4953,7 +4989,7 @@ class DecRoAffine(RoAffine):
             if not isinstance(arg, RandVal):
                 raise TypeError('Unsupported type for defining random variable values.')
 
-            index = range(arg.rvar.first, arg.rvar.last)
+            index = arg.index
             # rvec[index] = arg.values.ravel()
             if not arg.sw:
                 rvecs.loc[:, index] = arg.values.ravel()
@@ -5785,3 +5821,8 @@ class RandVal:
         self.rvar = rvar
         self.values = values
         self.sw = sw
+        # positions of the assigned entries in the vector of random variables
+        if isinstance(rvar, VarSub):
+            self.index = rvar.first + np.asarray(rvar.indices).ravel()
+        else:
+            self.index = np.arange(rvar.first, rvar.last)
